@@ -28,16 +28,19 @@ var corpus = []corpusCase{
 	{"gen-drain > return-finally{@} > try{@}catch > try{@}finally-throw > return", "diff"},
 	{"gen-return@1 > yieldstar-gen.finally{@} > return-finally{@} > try{@}finally-break > return", "diff"},
 	{"gen-throw@1 > return-finally{@} > try{@}catch > return-finally{@} > yield", "diff"},
+	{"gen-return@1 > yieldstar-gen.finally{@} > return-finally{@} > try{@}catch > try{@}finally-throw > return", "diff"},
 	// generator return(): exception thrown by a finally block
 	{"gen-return@1 > try{@}catch > try{@}finally-throw > yield", "diff"},
 	{"gen-return@1 > forof{@} > try{@}finally-throw > try{@}finally-return > yield", "diff"},
 	{"gen-return@1 > yieldstar-gen.finally{@} > yieldstar.next2{@} > throw", "diff"},
+	{"gen-return@2 > yieldstar-gen{@} > catch{@} > try{@}finally-throw > yield", "diff"},
 	// generator return(): exception crossing a native frame caught inside the finally block
 	{"gen-return@1 > yieldstar-gen.finally{@} > try{@}catch > forof-break.return{@} > throw", "diff"},
 	{"global > forof-break-gen.finally{@} > try{@}catch > forof-break.return{@} > throw", "diff"},
 	// iteratorRecord.iterate closes / swallows on uncatchable errors
 	{"global > fromMap-throw.return{@} > normal", "faults"},
 	{"global > fromMap.cb{@} > normal", "faults"},
+	{"global > forof{@} > map.return{@} > normal", "faults"},
 	// regression guards for repaired defects (for-of unwinding on interrupt / stack overflow)
 	{"global > forof{@} > normal", "faults"},
 	{"func > forof{@} > forof{@} > throw", "faults"},
